@@ -54,6 +54,7 @@ Inductive event :=
   | Exec                        (* a test-case execution begins *)
   | ExecEnd (k : Z)             (* ... and ends after k executed statements *)
   | FirstIter                   (* before_first_search_iteration *)
+  | IterStart                   (* the loop body is entered (evolve() / generate_sequence() is called) *)
   | IterEnd                     (* after_search_iteration *)
   | SearchEnd.                  (* after_search_finish *)
 
@@ -79,6 +80,8 @@ Definition step (hf : bool) (st : state) (e : event) : option state :=
   | PHead, Exec => if resources_left s then Some {| ph := PIter; cs := on_exec s |} else None
   | PHead, ExecEnd k => if resources_left s then Some {| ph := PIter; cs := on_exec_end k s |} else None
   | PHead, IterEnd => if resources_left s then Some {| ph := PHead; cs := on_iter_end s |} else None
+  (* entering the loop body; a second pass without after_search_iteration in between is no run of the loop *)
+  | PHead, IterStart => if resources_left s then Some {| ph := PIter; cs := s |} else None
   | PIter, Exec => Some {| ph := PIter; cs := on_exec s |}
   | PIter, ExecEnd k => Some {| ph := PIter; cs := on_exec_end k s |}
   | PIter, IterEnd => Some {| ph := PHead; cs := on_iter_end s |}
@@ -100,6 +103,8 @@ Definition accepts (hf : bool) (s : conds) (tr : list event) : bool :=
 (* ---- counting on traces (independent of the state machine) ---- *)
 Fixpoint n_iter (tr : list event) : Z :=
   match tr with [] => 0 | IterEnd :: r => 1 + n_iter r | _ :: r => n_iter r end.
+Fixpoint n_start (tr : list event) : Z :=
+  match tr with [] => 0 | IterStart :: r => 1 + n_start r | _ :: r => n_start r end.
 Fixpoint n_exec (tr : list event) : Z :=
   match tr with [] => 0 | Exec :: r => 1 + n_exec r | _ :: r => n_exec r end.
 Fixpoint n_stmt (tr : list event) : Z :=
